@@ -228,3 +228,5 @@ func vSprintf(format string, a ...interface{}) string { return fmt.Sprintf(forma
 // vsSetCloseAudit forwards to the scheduler runtime's close(2) audit (fires only in builds whose
 // sources were instrumented by tools/vinstr).
 func vsSetCloseAudit(f func(point, fd int)) { vsched.SetCloseAudit(f) }
+
+func vsPollReadable(fd int) bool { return vsched.PollReadable(fd) }
